@@ -188,7 +188,7 @@ def callSigs (out : List Item) : List (Nat × List TEv × Bool) :=
 
 theorem exec_shape (c : Cfg) (f : Nat) (w : World) (wt : Watcher) (evs : List TEv) (fl : Bool)
     (h : (run c f (.exec wt evs fl) w).1 ≠ .oof) :
-    callSigs (run c f (.exec wt evs fl) w).2.2 = [(wt.id, evs, fl)] := by
+    callSigs (run c f (.exec wt evs fl) w).2.2 = [(wt.cb, evs, fl)] := by
   cases f with
   | zero => simp [run] at h
   | succ f => simp [run, callSigs]
@@ -196,7 +196,7 @@ theorem exec_shape (c : Cfg) (f : Nat) (w : World) (wt : Watcher) (evs : List TE
 theorem callWatcher_shape (c : Cfg) (f : Nat) (w : World) (wt : Watcher) (ev : Ev)
     (hb : w.batch = false) (h : (run c f (.callWatcher wt ev) w).1 ≠ .oof) :
     callSigs (run c f (.callWatcher wt ev) w).2.2 =
-      if passes w.trigger wt ev then [(wt.id, [typed w.trigger wt ev], false)] else [] := by
+      if passes w.trigger wt ev then [(wt.cb, [typed w.trigger wt ev], false)] else [] := by
   cases f with
   | zero => simp [run] at h
   | succ f =>
@@ -212,7 +212,7 @@ the one typed event. -/
 theorem dispatch_shape (c : Cfg) (ev : Ev) : ∀ (ws : List Watcher) (f : Nat) (w : World),
     w.batch = false → (run c f (.dispatch ws ev) w).1 = .ok →
     callSigs (run c f (.dispatch ws ev) w).2.2 =
-      (ws.filter (fun wt => passes w.trigger wt ev)).map (fun wt => (wt.id, [typed w.trigger wt ev], false)) := by
+      (ws.filter (fun wt => passes w.trigger wt ev)).map (fun wt => (wt.cb, [typed w.trigger wt ev], false)) := by
   intro ws
   induction ws with
   | nil =>
@@ -252,7 +252,7 @@ the order given, each with its events `evsFor`. -/
 theorem flushRound_shape (c : Cfg) (dict : List Ev) : ∀ (ws : List Watcher) (f : Nat) (w : World),
     (run c f (.flushRound ws dict) w).1 = .ok →
     callSigs (run c f (.flushRound ws dict) w).2.2 =
-      ws.map (fun wt => (wt.id, evsFor w.trigger wt dict, true)) := by
+      ws.map (fun wt => (wt.cb, evsFor w.trigger wt dict, true)) := by
   intro ws
   induction ws with
   | nil =>
@@ -394,9 +394,11 @@ theorem nodupQ (c : Cfg) : ∀ (f : Nat) (call : Call) (w : World),
     | updateKeys kvs => rcases kvs with _ | ⟨⟨k, v⟩, rest⟩ <;> run_cases hrun with grind
     | trigger ps =>
       simp only [run] at hrun
-      subst hrun
-      simp only at h ⊢
-      exact nodup_append_filter _ _ hi (ih _ _ h (by simp))
+      split at hrun
+      · subst hrun; exact hi
+      · subst hrun
+        simp only at h ⊢
+        exact nodup_append_filter _ _ hi (ih _ _ h (by simp))
 
 /-! ### L5: inside an open batch what is queued stays queued, whatever a statement does -/
 
@@ -426,12 +428,14 @@ theorem deferred_kept (c : Cfg) : ∀ (f : Nat) (call : Call) (w : World),
     | updateKeys kvs => rcases kvs with _ | ⟨⟨k, v⟩, rest⟩ <;> run_cases hrun with grind [Call.deferring]
     | trigger ps =>
       simp only [run] at hrun
-      subst hrun
-      simp only
-      refine ⟨fun e he => List.mem_append_left _ he, ?_⟩
-      intro x hx
-      simp only [List.map_append, List.mem_append]
-      exact Or.inl (List.mem_map.2 ⟨x, hx, rfl⟩)
+      split at hrun
+      · subst hrun; exact ⟨fun e he => he, fun x hx => List.mem_map.2 ⟨x, hx, rfl⟩⟩
+      · subst hrun
+        simp only
+        refine ⟨fun e he => List.mem_append_left _ he, ?_⟩
+        intro x hx
+        simp only [List.map_append, List.mem_append]
+        exact Or.inl (List.mem_map.2 ⟨x, hx, rfl⟩)
 
 /-! ### L9: a queued callback's own assignments are not dispatched while it is running -/
 
@@ -699,16 +703,18 @@ theorem setAttr_in_batch_getVal (c : Cfg) (f : Nat) (w : World) (p : Nat) (v : I
       simp only [he, if_true] at h ⊢
       generalize hd : run c f (.setPlain p v) w = d at h key ⊢
       obtain ⟨r1, w1, o1⟩ := d
-      cases r1 with
-      | oof => simp at h
-      | raised e => simpa using key (by simp) (Or.inl hne)
-      | ok =>
-        have k := key (by simp) (Or.inl hne)
-        simp only at k ⊢
+      have hr : r1 ≠ .oof := by intro e; subst e; simp at h
+      have k := key hr (Or.inl hne)
+      have goal : getVal (if w1.setMode.contains p = true then (r1, w1, o1)
+          else (r1, { w1 with vals := w1.vals.set p 0 }, o1)).2.1 q = getVal w q := by
         split
         · exact k
         · simp only [getVal] at k ⊢
           rw [getD_set_ne _ _ _ _ (Ne.symm hne)]; exact k
+      cases r1 with
+      | oof => exact absurd rfl hr
+      | ok => simpa using goal
+      | raised e => simpa using goal
     · simp only [he, Bool.false_eq_true, if_false] at h ⊢
       refine key h ?_
       by_cases e : q = p
